@@ -1284,6 +1284,18 @@ func (t *State) recoverUnconfirmedTx(undoList []*pb.Transaction) {
 	verifHook("recover_done")
 }
 
+// sameTxContent: a and b are the same transaction up to the annotations a node adds on its own (the block it was
+// confirmed in, the time it was received)
+func sameTxContent(a, b *pb.Transaction) bool {
+	if a == nil || b == nil {
+		return false
+	}
+	x, y := proto.Clone(a).(*pb.Transaction), proto.Clone(b).(*pb.Transaction)
+	x.Blockid, y.Blockid = nil, nil
+	x.ReceivedTimestamp, y.ReceivedTimestamp = 0, 0
+	return proto.Equal(x, y)
+}
+
 //执行一个block的时候, 处理本地未确认交易
 //返回：被确认的txid集合、err
 func (t *State) processUnconfirmTxs(block *pb.InternalBlock, batch kvdb.Batch, needRepost bool) (map[string]bool, map[string]bool, error) {
@@ -1293,10 +1305,12 @@ func (t *State) processUnconfirmTxs(block *pb.InternalBlock, batch kvdb.Batch, n
 		return nil, nil, ErrPreBlockMissMatch
 	}
 	txidsInBlock := map[string]bool{}    // block里面所有的txid
+	blockTxByID := map[string]*pb.Transaction{}
 	UTXOKeysInBlock := map[string]bool{} // block里面所有的交易需要用掉的utxo
 	keysVersionInBlock := map[string]string{}
 	for _, tx := range block.Transactions {
 		txidsInBlock[string(tx.Txid)] = true
+		blockTxByID[string(tx.Txid)] = tx
 		for _, txInput := range tx.TxInputs {
 			utxoKey := utxo.GenUtxoKey(txInput.FromAddr, txInput.RefTxid, txInput.RefOffset)
 			if UTXOKeysInBlock[utxoKey] { //检查块内的utxo双花情况
@@ -1322,6 +1336,13 @@ func (t *State) processUnconfirmTxs(block *pb.InternalBlock, batch kvdb.Batch, n
 	unconfirmToConfirm := map[string]bool{}
 	for txid, unconfirmTx := range unconfirmTxMap {
 		if _, exist := txidsInBlock[string(txid)]; exist {
+			// the entry is taken as the unconfirmed transaction of that id (neither verified nor applied again below):
+			// it has to BE that transaction. The claimed id alone does not say so (nothing recomputes it on this
+			// path, and it does not cover every field, e.g. modify_block)
+			if !sameTxContent(blockTxByID[string(txid)], unconfirmTx) {
+				t.log.Warn("block entry claims the id of an unconfirmed tx but has other content", "txid", fmt.Sprintf("%x", txid))
+				return nil, nil, errors.New("block entry claims the id of an unconfirmed tx but has other content")
+			}
 			// 说明这个交易已经被确认
 			batch.Delete(append([]byte(pb.UnconfirmedTablePrefix), []byte(txid)...))
 			t.log.Trace("  delete from unconfirmed", "txid", fmt.Sprintf("%x", txid))
